@@ -56,6 +56,13 @@ func phaseShare(cr *childResult, seed uint64, quick bool) {
 	for i := 0; i < nH3; i++ {
 		runH3Replay(cr, rng.Fork(), seed, i)
 	}
+	nGA := 12
+	if !quick {
+		nGA = 200
+	}
+	for i := 0; i < nGA; i++ {
+		runGoAwayScenario(cr, rng.Fork(), seed, i)
+	}
 }
 
 // ---------- proxy ----------
